@@ -366,6 +366,8 @@ func v10Cert() tls.Certificate {
 	return v10CertVal
 }
 
+const v10BadCred = "v10-wrong-password"
+
 type v10Auth struct{ tx chan uint64 }
 
 func (a *v10Auth) Authenticate(addr net.Addr, auth string, tx uint64) (bool, string) {
@@ -373,7 +375,7 @@ func (a *v10Auth) Authenticate(addr net.Addr, auth string, tx uint64) (bool, str
 	case a.tx <- tx:
 	default:
 	}
-	return true, "v10user"
+	return auth != v10BadCred, "v10user"
 }
 
 type v10Events struct{ connect chan uint64 }
@@ -897,11 +899,40 @@ type v10RawCase struct {
 	sNoLC       bool
 	disableUDP  bool
 	withPadding bool
+	again       []v10Reauth // further auth POSTs on the SAME connection after the accepted one
+}
+
+type v10Reauth struct {
+	hdr     v10Hdr
+	badCred bool
+}
+
+func (r v10Reauth) String() string {
+	if r.badCred {
+		return fmt.Sprintf("re-auth(CC-RX=%v, wrong credentials)", r.hdr)
+	}
+	return fmt.Sprintf("re-auth(CC-RX=%v)", r.hdr)
 }
 
 func (c v10RawCase) String() string {
-	return fmt.Sprintf("raw client Hysteria-CC-RX=%v -> server{MaxTx=%s MaxRx=%s IgnoreClientBandwidth=%v cc=%v DisableLossCompensation=%v DisableUDP=%v}",
+	s := fmt.Sprintf("raw client Hysteria-CC-RX=%v -> server{MaxTx=%s MaxRx=%s IgnoreClientBandwidth=%v cc=%v DisableLossCompensation=%v DisableUDP=%v}",
 		c.hdr, v10U64Name(c.sTx), v10U64Name(c.sRx), c.ignore, c.sCC, c.sNoLC, c.disableUDP)
+	if len(c.again) > 0 {
+		s += fmt.Sprintf(" then on the same connection %v", c.again)
+	}
+	return s
+}
+
+// v10ReauthWouldChange: would the server's rate differ if a repeated request were (wrongly) evaluated?
+func v10ReauthWouldChange(c v10RawCase, first v10Rate) bool {
+	for _, a := range c.again {
+		for _, r := range v10Readings(a.hdr, false) {
+			if v10RefServer(c.ignore, r.n, c.sTx) != first {
+				return true
+			}
+		}
+	}
+	return false
 }
 
 func v10RunRaw(c v10RawCase) (violation, inconclusive string, chosen v10Interp, want v10Rate) {
@@ -921,11 +952,13 @@ func v10RunRaw(c v10RawCase) (violation, inconclusive string, chosen v10Interp, 
 	tr := &quic.Transport{Conn: pc}
 	defer v10Bounded("raw client transport Close()", func() { _ = tr.Close() })
 	var cconn *quic.Conn
+	dials := 0
 	h3 := &http3.Transport{
 		TLSClientConfig: &tls.Config{InsecureSkipVerify: true, ServerName: "hysteria"},
 		QUICConfig:      v10QUICConfig(),
 		Dial: func(ctx context.Context, _ string, tlsCfg *tls.Config, cfg *quic.Config) (*quic.Conn, error) {
 			qc, err := tr.DialEarly(ctx, sv.addr, tlsCfg, cfg)
+			dials++
 			if err == nil {
 				cconn = qc
 			}
@@ -995,6 +1028,60 @@ func v10RunRaw(c v10RawCase) (violation, inconclusive string, chosen v10Interp, 
 	if got := resp.Header.Values(v10HdrCCRX); len(got) != 1 || got[0] != wantHdr {
 		add(fmt.Sprintf("response Hysteria-CC-RX=%q, want [%q]", got, wantHdr))
 	}
+
+	// Repeated auth requests on the already authenticated connection. The rate was
+	// negotiated (and reported) once: whatever the later requests declare, the
+	// installed controller must stay what the accepted handshake negotiated, and
+	// nothing new may be reported.
+	for i, a := range c.again {
+		ctx2, cancel2 := context.WithTimeout(context.Background(), v10Wait)
+		req2 := (&http.Request{
+			Method: http.MethodPost,
+			URL:    &url.URL{Scheme: "https", Host: "hysteria", Path: "/auth"},
+			Header: make(http.Header),
+		}).WithContext(ctx2)
+		req2.Header.Set(v10HdrAuth, "v10")
+		if a.badCred {
+			req2.Header.Set(v10HdrAuth, v10BadCred)
+		}
+		if a.hdr.present {
+			req2.Header.Set(v10HdrCCRX, a.hdr.val)
+		}
+		resp2, err := h3.RoundTrip(req2)
+		if err != nil {
+			cancel2()
+			return "", fmt.Sprintf("repeated auth request %d failed (%v) for %v", i+1, err, c), chosen, want
+		}
+		_, _ = io.Copy(io.Discard, resp2.Body)
+		_ = resp2.Body.Close()
+		cancel2()
+		if dials != 1 {
+			return "", "the HTTP/3 transport dialled a new connection for the repeated auth request", chosen, want
+		}
+		// the controller is (re)installed, if at all, before the answer is written
+		if now := v10ReadServerCC(sconn); now != gotS {
+			add(fmt.Sprintf("after %v on the authenticated connection the server-side controller changed from %v to %v; Connect reported tx=%d once and the accepted handshake negotiated %v",
+				a, gotS, now, connectTx, want))
+		}
+		if resp2.StatusCode == v10AuthOK {
+			if got := resp2.Header.Values(v10HdrCCRX); len(got) != 1 || got[0] != wantHdr {
+				add(fmt.Sprintf("answer to %v carries Hysteria-CC-RX=%q, want [%q]", a, got, wantHdr))
+			}
+		}
+	}
+	if len(c.again) > 0 {
+		// silence check (expiry = pass): no second Connect event with whatever rate
+		select {
+		case tx2 := <-sv.events.connect:
+			add(fmt.Sprintf("a repeated auth request produced another Connect event (tx=%d); the connection's rate was reported as tx=%d", tx2, connectTx))
+		case <-time.After(20 * time.Millisecond):
+		}
+		select {
+		case <-sv.conns:
+			return "", "a second server-side connection appeared during the repeated auth requests", chosen, want
+		default:
+		}
+	}
 	if len(bad) > 0 {
 		return fmt.Sprintf("%s\n  case:     %v\n  expected: server %v (client's declaration read as %v)\n  observed: server %v (Connect tx=%d, Authenticate tx=%d), response Hysteria-CC-RX=%q",
 			strings.Join(bad, "; "), c, want, chosen, gotS, connectTx, authTx, resp.Header.Values(v10HdrCCRX)), "", chosen, want
@@ -1016,6 +1103,9 @@ func TestVerifC10_RawClientHeader(t *testing.T) {
 		c.sNoLC = rapid.Bool().Draw(rt, "serverDisableLossComp")
 		c.disableUDP = rapid.IntRange(0, 4).Draw(rt, "disableUDP") == 0
 		c.withPadding = rapid.Bool().Draw(rt, "padding")
+		for n := rapid.SampledFrom([]int{1, 0, 2}).Draw(rt, "reauths"); n > 0; n-- {
+			c.again = append(c.again, v10Reauth{hdr: v10GenHeader(rt, false), badCred: rapid.IntRange(0, 2).Draw(rt, "reauthBadCred") == 2})
+		}
 		viol, inc, chosen, want := v10RunRaw(c)
 		for try := 0; inc != "" && try < v10Retries; try++ {
 			st.Class("handshake retried")
@@ -1032,7 +1122,11 @@ func TestVerifC10_RawClientHeader(t *testing.T) {
 		if v10IsHuge(want) {
 			cls = append(cls, "fixed rate > 2^62-1 (saturates)")
 		}
-		nt := v10NTPair(c.ignore, c.sTx, chosen.n) || len(readings) > 1 || (c.sTx != 0 && v10HdrClass(c.hdr, false) != "decimal")
+		cls = append(cls, fmt.Sprintf("reauths=%d", len(c.again)))
+		if v10ReauthWouldChange(c, want) {
+			cls = append(cls, "reauth declares a rate that would change the controller")
+		}
+		nt := v10NTPair(c.ignore, c.sTx, chosen.n) || len(readings) > 1 || (c.sTx != 0 && v10HdrClass(c.hdr, false) != "decimal") || v10ReauthWouldChange(c, want)
 		st.Case(nt, c.String(), cls, func() string { return fmt.Sprintf("%v => read as %v, server %v", c, chosen, want) })
 		if viol != "" {
 			rt.Fatalf("C10 raw client header: %s", viol)
